@@ -3,6 +3,7 @@ package world
 import (
 	"runtime"
 	"runtime/debug"
+	"sort"
 )
 
 func stackTrace() string {
@@ -26,4 +27,19 @@ func Gid() int64 {
 		id = id*10 + int64(c-'0')
 	}
 	return id
+}
+
+// KeysNoLock / PeekNoLock are for use inside a Fault callback (which runs under the store's lock).
+func (c *RecConn) KeysNoLock() []string {
+	keys := make([]string, 0, len(c.M))
+	for k := range c.M {
+		keys = append(keys, k)
+	}
+	sort.Strings(keys)
+	return keys
+}
+
+func (c *RecConn) PeekNoLock(key string) ([]byte, bool) {
+	v, ok := c.M[key]
+	return v, ok
 }
